@@ -25,4 +25,10 @@ META = {
   "note": "Confidentiality is judged by searching known encodings of the slate and sender (raw, hex, bech32, JSON) in every form; a leak in another encoding would be missed. Wrong keys are sampled.",
   "technique": "runtime monitoring: decrypt/tamper/cleartext-search oracle over real slatepack encode/decode executions",
  },
+ "C09": {
+  "text": "Runtime monitoring of every decoder entry point under hostile input: unwinding is caught and attributed to its panic site, allocation and CPU are metered per input, aborts are attributed through a per-input journal, and the wallet's raw LMDB content and files are diffed after rejected inputs on wallet-facing entries. Several 10^5 (quick) to 10^6 (thorough) inputs per run, exhaustive over single positions of the first valid encodings.",
+  "design_ref": "DESIGN.md section 5 C09",
+  "note": "No coverage-guided fuzzer decides the verdict (technique family); inputs are structure-aware. ASan/Miri passes are supplementary (thorough tier).",
+  "technique": "runtime monitoring: panic/allocation/CPU/state-diff monitors around real decoder executions on structure-aware hostile inputs",
+ },
 }
